@@ -2,6 +2,7 @@ import AtreeModel.Array.Partial
 import AtreeProofs.ArrayInv
 import AtreeProofs.Array.Iter
 import AtreeProofs.Array.Example
+import AtreeProofs.Array.Top
 /-
   C01 / C13 — the array model is TOTAL where Go panics or returns an error, OUTSIDE the invariant
   (audit a1/F10).  `AtreeModel/Array/Partial.lean` has `Except`-valued transcriptions of the same Go
@@ -198,6 +199,200 @@ theorem mergeE_of_treeInv {T d : Nat} (hT : legalThreshold T = true) {l : MetaSl
   rw [F.minE] at hmin'
   simp only [arrayMetaDataSlabPrefixSize, List.length_nil, Nat.mul_zero, Nat.add_zero] at hsz
   omega
+
+/-! ### inside the invariant the explicit iterator does not fail -/
+
+theorem data_nonempty {T : Nat} (hT : legalThreshold T = true) {s : DataSlab} (h : DataInv T false s) : s.elems ≠ [] := by
+  intro he
+  have F := thrFacts hT
+  have h1 := h.size_eq
+  have h2 := h.ge_min rfl
+  have hroot : s.root = false := h.root_eq
+  have hinl : s.inlined = false := by
+    cases hi : s.inlined with
+    | false => rfl
+    | true => exact absurd (h.inl_root hi) (by simp)
+  rw [he] at h1
+  simp only [DataSlab.prefixSize, hinl, hroot, Bool.false_eq_true, if_false, sumSizes_nil, F.pfx] at h1
+  rw [F.minE] at h2
+  have := F.lo
+  omega
+
+theorem children_nonempty {T d : Nat} (hT : legalThreshold T = true) {top : Bool} {m : MetaSlab (ATree d)}
+    (h : TreeInv T (d + 1) top m) : m.children ≠ [] := by
+  have F := thrFacts hT
+  obtain ⟨_, _, _, _, h5, _, _, _, hmin, htop⟩ := h
+  intro hnil
+  cases top with
+  | true => have := htop rfl; rw [hnil] at this; simp at this
+  | false =>
+    have h2 := hmin rfl
+    rw [hnil] at h5
+    rw [F.minE] at h2
+    simp only [F.mpfx, List.length_nil, Nat.mul_zero, Nat.add_zero] at h5
+    have := F.lo
+    omega
+
+theorem leaves_nonempty {T : Nat} (hT : legalThreshold T = true) : ∀ (d : Nat) (t : ATree d), TreeInv T d false t →
+    ∀ s ∈ Arr.leaves d t, s.elems ≠ []
+  | 0, (t : DataSlab), h, s, hs => by
+    have : s = t := List.mem_singleton.mp hs
+    subst this
+    exact data_nonempty hT h
+  | d + 1, (m : MetaSlab (ATree d)), h, s, hs => by
+    obtain ⟨_, _, _, _, _, h6, _⟩ := h
+    obtain ⟨c, hc, hsc⟩ := List.mem_flatMap.mp hs
+    exact leaves_nonempty hT d c (h6 c hc) s hsc
+
+theorem first_leaf {T : Nat} (hT : legalThreshold T = true) : ∀ (d : Nat) (top : Bool) (t : ATree d), TreeInv T d top t →
+    ∃ f rest, Arr.leaves d t = f :: rest ∧ Arr.firstDataSlabE d t = .ok f
+  | 0, _, (t : DataSlab), _ => ⟨t, [], rfl, rfl⟩
+  | d + 1, top, (m : MetaSlab (ATree d)), h => by
+    have hne := children_nonempty hT h
+    obtain ⟨_, _, _, _, _, h6, _⟩ := h
+    cases hc : m.children with
+    | nil => exact absurd hc hne
+    | cons child cs =>
+      obtain ⟨f, rest, h1, h2⟩ := first_leaf hT d false child (h6 child (by rw [hc]; simp))
+      refine ⟨f, rest ++ cs.flatMap (Arr.leaves d), ?_, ?_⟩
+      · show m.children.flatMap (Arr.leaves d) = _
+        rw [hc, List.flatMap_cons, h1]; rfl
+      · show (match m.children with
+          | [] => (Except.error IterErr.goPanic : Except IterErr DataSlab)
+          | child :: _ => Arr.firstDataSlabE d child) = _
+        rw [hc]; exact h2
+
+theorem length_le_flatMap_elems : ∀ (L : List DataSlab), (∀ s ∈ L, s.elems ≠ []) →
+    L.length ≤ (L.flatMap (·.elems)).length
+  | [], _ => Nat.le_refl _
+  | s :: L, h => by
+    have h1 : 1 ≤ s.elems.length := by
+      cases he : s.elems with
+      | nil => exact absurd he (h s (by simp))
+      | cons _ _ => simp
+    have h2 := length_le_flatMap_elems L (fun x hx => h x (by simp [hx]))
+    simp only [List.flatMap_cons, List.length_append, List.length_cons]
+    omega
+
+theorem roIterFromE_spec : ∀ (rest pre : List DataSlab) (cur : DataSlab) (fuel idx remaining : Nat),
+    LeafChain (cur :: rest) → ((pre ++ cur :: rest).map (·.hdr.id)).Nodup →
+    (∀ s ∈ pre ++ cur :: rest, s.hdr.id ≠ SlabID.undef) → (∀ s ∈ rest, s.elems ≠ []) →
+    rest.length + 1 ≤ fuel →
+    Arr.roIterFromE (pre ++ cur :: rest) fuel cur idx remaining
+      = .ok ((cur.elems.drop idx ++ rest.flatMap (·.elems)).take remaining) := by
+  intro rest
+  induction rest with
+  | nil =>
+    intro pre cur fuel idx remaining hchain _ _ _ hfuel
+    obtain ⟨f, rfl⟩ : ∃ f, fuel = f + 1 := ⟨fuel - 1, by simp at hfuel; omega⟩
+    have hnext : cur.next = SlabID.undef := hchain
+    unfold Arr.roIterFromE
+    by_cases h0 : remaining = 0
+    · simp [h0]
+    · simp only [h0, if_false, List.flatMap_nil, List.append_nil]
+      by_cases h1 : (cur.elems.drop idx).length ≥ remaining
+      · simp only [h1, if_true]
+      · simp only [h1, if_false, hnext, if_true]
+        rw [List.take_of_length_le (by omega)]
+  | cons nxt rest ih =>
+    intro pre cur fuel idx remaining hchain hnd hdef hne hfuel
+    obtain ⟨f, rfl⟩ : ∃ f, fuel = f + 1 := ⟨fuel - 1, by simp at hfuel; omega⟩
+    obtain ⟨hnext, hchain'⟩ : cur.next = nxt.hdr.id ∧ LeafChain (nxt :: rest) := hchain
+    have hnu : ¬ nxt.hdr.id = SlabID.undef := hdef nxt (by simp)
+    have hnz : ¬ nxt.elems.length = 0 := by
+      intro h0
+      exact hne nxt (by simp) (List.eq_nil_of_length_eq_zero h0)
+    unfold Arr.roIterFromE
+    by_cases h0 : remaining = 0
+    · simp [h0]
+    · simp only [h0, if_false]
+      by_cases h1 : (cur.elems.drop idx).length ≥ remaining
+      · simp only [h1, if_true]
+        rw [List.take_append_of_le_length h1]
+      · simp only [h1, if_false, hnext, hnu, find?_next pre rest cur nxt hnd, hnz]
+        have hsplit : pre ++ cur :: nxt :: rest = (pre ++ [cur]) ++ nxt :: rest := by simp
+        rw [hsplit, ih (pre ++ [cur]) nxt f 0 _ hchain' (by rw [← hsplit]; exact hnd)
+          (by rw [← hsplit]; exact hdef) (fun s hs => hne s (by simp [hs])) (by simp at hfuel ⊢; omega)]
+        simp only [List.drop_zero, List.flatMap_cons]
+        rw [List.take_append (l₁ := cur.elems.drop idx),
+          List.take_of_length_le (l := cur.elems.drop idx) (by omega)]
+
+/-- **INSIDE THE INVARIANT THE READ-ONLY ITERATOR DOES NOT FAIL** and yields what the old model yields
+    (`toList`): no missing `next` slab, no empty non-root slab, no childless index slab, and the
+    fuel `count + 2` is enough. -/
+theorem iterReadOnlyE_of_inv (T : Nat) (hT : legalThreshold T = true) (a : Arr) (ctr : Nat) (h : ArrInv T a ctr) :
+    a.iterReadOnlyE = .ok a.iterReadOnly ∧ a.iterReadOnlyE = .ok a.toList := by
+  have hold : a.iterReadOnly = a.toList := iterReadOnly_eq a ctr h
+  rw [hold]
+  refine ⟨?_, ?_⟩ <;>
+  · obtain ⟨d, t, ty⟩ := a
+    have hfl := leaves_flatMap_elems d t
+    have hcount : (hdr d t).count = (flatten d t).length := h.shape.count_eq_length
+    have hnd : ((Arr.leaves d t).map (·.hdr.id)).Nodup := h.ids.1.sublist (leaves_ids_sublist d t)
+    have hdef : ∀ s ∈ Arr.leaves d t, s.hdr.id ≠ SlabID.undef := by
+      intro s hs heq
+      have hm : s.hdr.id ∈ slabIds d t :=
+        (leaves_ids_sublist d t).subset (List.mem_map.2 ⟨s, hs, rfl⟩)
+      have := (h.ids.2 _ hm).2.1
+      rw [heq] at this
+      simp [SlabID.undef] at this
+    have hchain : LeafChain (Arr.leaves d t) := h.chain
+    have htree : TreeInv T d true t := h.tree
+    obtain ⟨first, rest, hl, hfirst⟩ := first_leaf hT d true t htree
+    have hrest : ∀ s ∈ rest, s.elems ≠ [] := by
+      cases d with
+      | zero =>
+        have : Arr.leaves 0 t = [t] := rfl
+        rw [this] at hl
+        have : rest = [] := (List.cons.inj hl).2.symm
+        intro s hs; rw [this] at hs; cases hs
+      | succ d' =>
+        obtain ⟨_, _, _, _, _, h6, _⟩ := htree
+        intro s hs
+        have hs' : s ∈ Arr.leaves (d' + 1) t := by rw [hl]; simp [hs]
+        obtain ⟨c, hc, hsc⟩ := List.mem_flatMap.mp hs'
+        exact leaves_nonempty hT d' c (h6 c hc) s hsc
+    show (if (hdr d t).count = 0 then (Except.ok [] : Except IterErr (List Elem))
+      else match Arr.firstDataSlabE d t with
+        | Except.error e => Except.error e
+        | Except.ok first => Arr.roIterFromE (Arr.leaves d t) ((hdr d t).count + 2) first 0 (hdr d t).count)
+      = Except.ok (flatten d t)
+    by_cases h0 : (hdr d t).count = 0
+    · rw [if_pos h0]
+      have : (flatten d t).length = 0 := by omega
+      rw [List.eq_nil_of_length_eq_zero this]
+    · rw [if_neg h0, hfirst]
+      simp only
+      rw [hl] at hnd hdef hchain hfl
+      have hlen := length_le_flatMap_elems rest hrest
+      have hflen : (flatten d t).length = first.elems.length + (rest.flatMap (·.elems)).length := by
+        rw [← hfl]; simp
+      have := roIterFromE_spec rest [] first ((hdr d t).count + 2) 0 (hdr d t).count hchain
+        (by simpa using hnd) (by simpa using hdef) hrest (by omega)
+      simp only [List.nil_append, List.drop_zero] at this
+      rw [hl, this, ← List.flatMap_cons (f := fun s : DataSlab => s.elems), hfl, hcount]
+      rw [List.take_of_length_le (Nat.le_refl _)]
+
+/-- the error exits, one step of the iterator: the current slab is used up, more elements are
+    expected, `next` is defined and no slab has that ID ⇒ `SlabNotFoundError`; the slab with that ID is
+    empty ⇒ `SlabDataError` -/
+theorem roIterFromE_missing_next (all : List DataSlab) (fuel : Nat) (cur : DataSlab) (idx remaining : Nat)
+    (h1 : (cur.elems.drop idx).length < remaining) (h2 : cur.next ≠ SlabID.undef)
+    (h3 : all.find? (fun s => s.hdr.id == cur.next) = none) :
+    Arr.roIterFromE all (fuel + 1) cur idx remaining = .error .slabNotFound := by
+  have h0 : ¬ remaining = 0 := by omega
+  have h1' : ¬ (cur.elems.drop idx).length ≥ remaining := by omega
+  unfold Arr.roIterFromE
+  simp only [h0, if_false, h1', h2, h3]
+
+theorem roIterFromE_empty_next (all : List DataSlab) (fuel : Nat) (cur nxt : DataSlab) (idx remaining : Nat)
+    (h1 : (cur.elems.drop idx).length < remaining) (h2 : cur.next ≠ SlabID.undef)
+    (h3 : all.find? (fun s => s.hdr.id == cur.next) = some nxt) (h4 : nxt.elems = []) :
+    Arr.roIterFromE all (fuel + 1) cur idx remaining = .error .slabData := by
+  have h0 : ¬ remaining = 0 := by omega
+  have h1' : ¬ (cur.elems.drop idx).length ≥ remaining := by omega
+  unfold Arr.roIterFromE
+  simp only [h0, if_false, h1', h2, h3, h4, List.length_nil, if_true]
 
 /-! ### concrete states outside the invariant: the old model is total, Go panics -/
 section MetaExamples
